@@ -154,6 +154,17 @@ def DOCS():
     d['pkg_then_cls_lang'] = ('ru-RU', '\\documentclass[english]{article}\\usepackage[german,russian]'
                               '{babel}\n', seq(W('Ж ж '), FL('english', W('one')), W(' ж.')), 1)
     d['main_opt_only'] = ('ru-RU', '', seq(W('Ж ж '), FL('german', W('eins zwei')), W(' ж.')), 2)
+    d['cls_lang_pkg_other_opt'] = ('de-DE', '\\documentclass[ngerman]{article}\\usepackage[shorthands=off]'
+                                   '{babel}\n', seq(W('Eins zwei '), FL('english', W('one')), W(' drei.')), 1)
+    d['cls_lang_pkg_two_opts'] = ('de-DE', '\\documentclass[12pt,ngerman]{scrartcl}\\usepackage[activeacute,'
+                                  'math=normal]{babel}\n', seq(W('Eins '), FL('french', W('un')), W(' zwei.')), 1)
+    d['later_footnote'] = ('en-GB', '', seq(W('A '), FL('german', seq(W('eins'), GRP('\\footnote{', W('Fuß')),
+                                                                     W(' zwei'))),
+                                            W(' b'), GRP('\\footnote{', W('Later foot')), W(' c'),
+                                            GRP('\\caption{', W('Cap')), W(' d.')), None)
+    d['select_in_env_then_footnote'] = ('en-GB', '', seq(W('A\n'), ENV('german', seq(W('\nEins '), SEL('french'),
+                                                         W(' un deux\n'))), W('\nb'),
+                                                         GRP('\\footnote{', W('Foot')), W(' c.')), None)
     d['nested_same'] = ('en-GB', '', seq(W('A '), ENV('german', seq(W(' B '), FL('german', W('C')),
                                                                    W(' D '))), W(' E.')), None)
     d['nested_same_fl'] = ('en-GB', '', seq(W('A b '), FL('german', seq(W('eins '), FL('german',
